@@ -208,3 +208,11 @@ impl NodeInfo {
         Ok(dict)
     }
 }
+
+#[cfg(reclass_rs_verif)]
+impl NodeInfoMeta {
+    /// Verification hook: `as_reclass`.
+    pub fn verif_as_reclass(&self, config: &Config) -> Result<Mapping> {
+        self.as_reclass(config)
+    }
+}
